@@ -369,6 +369,8 @@ class Explorer:
     def model_call(self, env, t):
         f = t["f"].get("k") or {}
         callee = t.get("res") or f.get("fn") or "?"
+        if t.get("resl") and f.get("ga") and t.get("resn"):
+            callee = t["resn"]  # local generic callee: keep the instantiation (`read_data_raw::<u32>`)
         decl = f.get("fn") or callee
         args = tuple(self.operand(env, a) for a in t["args"])
         if self.call_model:
